@@ -30,6 +30,8 @@ func runAsmDomain(domain string, out *bufio.Writer, rng *rand.Rand, thorough boo
 		genExpr(out, rng, cnt(4000, 200000))
 	case "for":
 		genFor(out, rng, cnt(3000, 150000))
+	case "conc":
+		genConc(out, rng, cnt(3, 200))
 	case "cli":
 		genCLI(out, rng, cnt(400, 20000))
 	case "soup":
